@@ -23,6 +23,14 @@ CHECKS = {
   "Bounded-exhaustive: for every model-valid non-empty text of the universes, every key/value/table/array-of-tables span of the ImDocument is checked for bounds, char boundaries, equality with the model's token extents, syntactic containment and slice re-parse; the serde view (self-describing tree with Spanned children and keys) must report the same ranges and the same value with and without Spanned; into_mut() must clear every span.",
   "Trusts the model's token extents (cross-checked against the real spans on every document).",
   "exhaustive enumeration of bounded input universes; span equality with model token extents plus model-free span laws"),
+ "C15": ("model_checking", "enum", "5/C15",
+  "Bounded-exhaustive: every rejected text of the universes (token sequences, lexical contexts, corpus mutants, all byte values at every frame position, multi-byte truncations and edits) yields errors from both crates that must have a non-empty message, an in-bounds char-aligned span, panic-free Display/Debug and a rendered line/column equal to an independently computed position (characters, one past the end at end of input); every (document, mismatching target type) pair of a typed family must carry the offending value's span (from_str) or the key path (Value::try_into).",
+  "Reference position computed independently of the implementation; one known finding (empty message at a bare CR, pinned by the repository's own snapshot) is recognised by position.",
+  "exhaustive enumeration of rejected inputs and (document, type) pairs; independent line/column oracle"),
+ "C20": ("model_checking", "enum", "5/C20",
+  "Bounded-exhaustive: for every model-valid text of the universes and a family of API-built documents (placeholders, conversions) a recording Visit and VisitMut are run and the callback sequence (kind, node address, content) compared with an independent pre-order walk through the public accessors; an integer-rewriting VisitMut must change every integer and nothing else (decoded tree == model tree + 1, text identical outside integer tokens).",
+  "Document order = order of the public iterators; the independent walk uses only iter()/as_*() accessors.",
+  "exhaustive enumeration of bounded input universes; visitor trace equality with an independent tree walk"),
 }
 
 NOT_YET = {}
